@@ -156,7 +156,7 @@ def run(res, tier, seed, replay_cases=None):
         res.violation("correspondence-tables", "white-box driver seltabdrv no longer compiles/links against the source: " + (derr or "")[-600:],
                       {"kind": "correspondence-break", "correspondence": "seltabdrv (GridGlobal::selectTensors, tensors, active_tensors)"}, no_input=True)
     else:
-        rc, so, se = vlib.run([drv, cf], timeout=900 if tier == "quick" else 3000)
+        rc, so, se = vlib.run([drv, cf], timeout=400 if tier == "quick" else 3000)
         of = os.path.join(wd, "cases.out")
         with open(of, "w") as fh:
             fh.write(so)
